@@ -5,6 +5,8 @@ import SeqVerif.Proofs.C03FracProofs
 import SeqVerif.Proofs.C03Select
 import SeqVerif.Proofs.C03SearchProofs
 import SeqVerif.Proofs.C03C02
+import SeqVerif.Proofs.C03FetchProofs
+import SeqVerif.Proofs.C03GroupProofs
 import SeqVerif.Extracted.C03
 /-!
 # C03 - answers do not depend on the fraction form (active = sealed = reloaded = any cache)
@@ -225,6 +227,50 @@ theorem c03_sealedNode_eq_c02_narrow (names : List SV.Spec.Bytes) (a : Active) (
       .ok (SV.EvalTree.narrow rev lo hi (((activeView names a).toks[tid - 1]?).map (·.lids) |>.getD [])) :=
   sealedNode_eq_narrow names a s h hag tid h1 h2 lo hi rev
 
+/-! ## documents: sorted-docs rewriting, doc-block offset table, fetch -/
+
+/-- **sortedDocs_fetch_same.**  After `writeSortedDocs` (documents re-read in sorted ID order, re-blocked by
+`docBlocksWriter` with any block size and any compressed block lengths), every position of the new `Positions` map,
+read through the new `BlockOffsets` table and the new docs file, yields exactly the bytes the active fraction stored
+for that ID; every written ID has a position.  (The table is the value returned by the writer - seeded change C03-m2
+aliased it with the pooled writer's buffer; that is a memory-sharing fact outside Lean, located by `c03.seal-sequence`.) -/
+theorem c03_sortedDocs_fetch_same (clen : Nat → List Nat → Nat) (hclen : ∀ i p, 0 < clen i p) (minBS : Nat)
+    (oldRead : ID → Option DocB) (hsize : ∀ id d, oldRead id = some d → d.length < 4294967296) (sortedIDs : List ID) (w : DW)
+    (hn : sortedIDs.length < 4294967296) (hw : writeSortedDocs clen minBS oldRead sortedIDs = some w) :
+    (∀ id pos, lookupPos w.positions id = some pos → readAt w.blockOffsets w.file pos = oldRead id) ∧
+    (∀ id, id ∈ sortedIDs.tail → id ≠ (0, 0) → ∃ pos, lookupPos w.positions id = some pos) :=
+  sortedDocs_fetch_same clen hclen minBS oldRead hsize sortedIDs w hn hw
+
+/-- **`GroupDocsOffsets` + the `IndexFetch` loop are transparent**: for any request (repetitions, `DocPosNotFound`,
+blocks in any order) the result is, slot by slot, nil for not-found and the document at the position otherwise -/
+theorem c03_indexFetch_eq_map (offsets : List Nat) (file : List (Nat × List Nat)) (ps : List Nat)
+    (hread : ∀ p, p ∈ ps → p ≠ docPosNotFound →
+      ∃ bo payload, offsets[(unpackDocPos p).1]? = some bo ∧ lookupFile file bo = some payload) :
+    indexFetch offsets file ps = some (ps.map fun p => if p = docPosNotFound then none else readAt offsets file p) :=
+  indexFetch_eq_map offsets file ps hread
+
+/-- **fetch: sealed = active, for every requested ID** (stored or not).  Sealed path: one `findLIDs` round (binary search
+over `LessOrEqual`, equality check), the positions block of the LID's ID block, the new offset table and doc blocks;
+active path: the positions map, the old offset table and doc blocks. -/
+theorem c03_fetch_sealed_eq_active (clen : Nat → List Nat → Nat) (hclen : ∀ i p, 0 < clen i p) (minBS size : Nat)
+    (apos : List (ID × Nat)) (aoffs : List Nat) (afile : List (Nat × List Nat)) (ids : List ID) (w : DW)
+    (hin : IDsInput size ids) (hd : DescIDs ids) (hn : ids.length < 4294967296)
+    (hkeys : ∀ id, (lookupPos apos id).isSome ↔ ∃ k, ∃ (hk : k < ids.length), 1 ≤ k ∧ ids[k] = id)
+    (hreadable : ∀ id p, lookupPos apos id = some p → p ≠ docPosNotFound ∧ ∃ d, readAt aoffs afile p = some d ∧ d.length < 4294967296)
+    (hnz : ∀ id, id ∈ ids.tail → id ≠ (0, 0))
+    (hw : writeSortedDocs clen minBS (fun id => fetchAt aoffs afile (activeDocPos apos id)) ids = some w)
+    (hposb : ∀ id p, lookupPos w.positions id = some p → p < W64 ∧ p ≠ docPosNotFound) (id : ID) :
+    fetchAt w.blockOffsets w.file (sealedDocPos size
+        (idsTableOf (writeIDs size ids (fun x => (lookupPos w.positions x).getD docPosNotFound)) ids.length)
+        (writeIDs size ids (fun x => (lookupPos w.positions x).getD docPosNotFound)) id) =
+      fetchAt aoffs afile (activeDocPos apos id) :=
+  fetch_one_same clen hclen minBS size apos aoffs afile ids w hin hd hn hkeys hreadable hnz hw hposb id
+
+/-- non-vacuity: two documents re-blocked with a 5-byte block size end up in two blocks and read back unchanged -/
+example : ∃ w, writeSortedDocs (fun _ p => p.length + 33) 5 (fun id => if id = (9, 1) then some [97, 98] else if id = (7, 2) then some [99] else none)
+    [(18446744073709551615, 18446744073709551615), (9, 1), (7, 2)] = some w ∧ w.blockOffsets = [0, 39] ∧
+    (lookupPos w.positions (7, 2)).bind (readAt w.blockOffsets w.file) = some [99] := ⟨_, rfl, by decide, by decide⟩
+
 /-! ## Obligations on facts re-extracted from /repo on every run -/
 
 open SV.Extracted.C03
@@ -276,5 +322,10 @@ theorem c03_x_ids_at_IDsPerBlock (ids : List ID) (posOf : ID → Nat) (h : IDsIn
 theorem c03_x_sealed_eq_active_at_consts (base : Nat) (posOf : ID → Nat) (a : Active) (h : Quiescent a) :
     ∃ s, sealFrac idsBlockSize idsPerBlock lidBlockCap regularBlockSize base posOf a = .ok s ∧ IndexAgree a s :=
   seal_agrees idsBlockSize lidBlockCap regularBlockSize base posOf a h (by decide) (by decide)
+
+/-- `writeSortedDocs` hands out copies of the pooled writer's `BlockOffsets` and `Positions` (the writer returns to
+`docBlocksWriterPool` and is reused by the next seal; `sortedDocs_fetch_same` is about the values at return time) -/
+theorem c03_x_sorted_docs_returns_copies :
+    sortedDocsReturns = ["sdocsFile", "slices.Clone(bw.BlockOffsets)", "maps.Clone(bw.Positions)", "nil"] := by decide
 
 end SV.Props.C03
